@@ -86,6 +86,7 @@ func (zp *ZoneParser) generate(l lex) (RR, bool) {
 	zp.sub = NewZoneParser(r, zp.origin, zp.file)
 	zp.sub.includeDepth, zp.sub.includeAllowed = zp.includeDepth, zp.includeAllowed
 	zp.sub.generateDisallowed = true
+	zp.sub.SetIncludeFS(zp.fsys)
 	if zp.defttl != nil {
 		// an omitted TTL takes the $TTL / last stated TTL, as on any other line
 		zp.sub.defttl = zp.defttl
